@@ -12,12 +12,13 @@ open Siot Siot.Store Siot.Export
 def liveEdges (src : St) : List Edge := src.edges.filter (fun e => !isTomb (eptsOf src e.up e.down))
 def liveK (src : St) : List Sh := (liveEdges src).map shape
 
-/-- the local store: a forest of stored rows with ordinary ids -/
-structure SrcOk (src : St) : Prop where
+/-- the local store is a forest, and the live subtree below `x` consists of stored rows under ordinary ids (nothing is asked
+    of the rest of the store) -/
+structure SrcOk (src : St) (x : Bytes) : Prop where
   tree : TreeK (shapes src)
-  rows : ∀ f ∈ src.edges, Rows (ptsOf src f.down) ∧ Rows (eptsOf src f.up f.down) ∧
+  rows : ∀ f ∈ src.edges, Below (liveK src) x f.down → Rows (ptsOf src f.down) ∧ Rows (eptsOf src f.up f.down) ∧
     (∀ p ∈ eptsOf src f.up f.down, p.type ≠ nodeTypeT) ∧ f.typ ≠ []
-  names : ∀ f ∈ src.edges, f.down ≠ [] ∧ f.down ≠ rootS ∧ f.down ≠ allS ∧ f.down ≠ noneS
+  names : ∀ f ∈ src.edges, Below (liveK src) x f.down → f.down ≠ [] ∧ f.down ≠ rootS ∧ f.down ≠ allS ∧ f.down ≠ noneS
 
 theorem liveK_sub (src : St) : (liveK src).Sublist (shapes src) := (List.filter_sublist).map shape
 
@@ -85,6 +86,9 @@ theorem below_child {src : St} {e c : Edge} (hc : c ∈ liveEdges src) (hu : c.u
     Below.step (shape c) (liveK_mem src c hc) (by show Below (liveK src) e.down c.up; rw [hu]; exact Below.refl _ _)
   exact h1.trans h
 
+theorem SrcOk.sub {src : St} {e c : Edge} (h : SrcOk src e.down) (hc : c ∈ liveEdges src) (hu : c.up = e.down) : SrcOk src c.down :=
+  ⟨h.tree, fun f hf hb => h.rows f hf (below_child hc hu hb), fun f hf hb => h.names f hf (below_child hc hu hb)⟩
+
 theorem belowD_child {src : St} {e c : Edge} (hc : c ∈ liveEdges src) (hu : c.up = e.down) {m : Bytes} {d : Nat}
     (h : BelowD (liveK src) c.down d m) : BelowD (liveK src) e.down (d + 1) m := by
   have h0 : BelowD (liveK src) e.down 0 c.up := by rw [hu]; exact .refl
@@ -129,23 +133,23 @@ structure KidOk (wall : Int → Int) (src : St) (fuel : Nat) (c : Edge) (acc : (
   kids : ∀ d c', c' ∈ liveEdges src → d + 1 < fuel → BelowD (liveK src) c.down d c'.up →
     ∃ k, eptsOf acc.1.1 c'.up c'.down = sentE (eptsOf src c'.up c'.down) (wall k)
 
-theorem sendNodes_sent (wall : Int → Int) (src : St) (hs : SrcOk src) :
-    ∀ (fuel : Nat) (dst : St × Int) (e : Edge) (P : Bytes), e ∈ src.edges →
+theorem sendNodes_sent (wall : Int → Int) (src : St) (htree : TreeK (shapes src)) :
+    ∀ (fuel : Nat) (dst : St × Int) (e : Edge) (P : Bytes), SrcOk src e.down → e ∈ src.edges →
     P ≠ [] → P ≠ noneS → P ≠ rootS → ¬ Below (liveK src) e.down P →
     (∀ m, Below (liveK src) e.down m → Fresh dst.1 m) →
     (sendNodesAux wall src fuel dst { neOf src e with parent := P }).2 = true ∧
       Sent wall src fuel dst.1 e P (sendNodesAux wall src fuel dst { neOf src e with parent := P }).1.1 := by
-  have hLT := liveK_tree src hs.tree
+  have hLT := liveK_tree src htree
   intro fuel
   induction fuel with
   | zero =>
-    intro dst e P _ _ _ _ _ _
+    intro dst e P _ _ _ _ _ _ _
     refine ⟨rfl, ⟨rfl, ⟨[], by rw [List.append_nil]; rfl, fun _ h => by cases h⟩, fun y _ => Same.refl _ _, fun d m h _ => absurd h (Nat.not_lt_zero _),
       fun h => absurd h (Nat.lt_irrefl 0), fun d c _ h _ => absurd h (Nat.not_lt_zero _)⟩⟩
   | succ fuel ih =>
-    intro dst e P he hP1 hP2 hP3 hPb hfresh
-    obtain ⟨hr1, hr2, hr3, hr4⟩ := hs.rows e he
-    obtain ⟨hn1, hn2, hn3, hn4⟩ := hs.names e he
+    intro dst e P hs he hP1 hP2 hP3 hPb hfresh
+    obtain ⟨hr1, hr2, hr3, hr4⟩ := hs.rows e he (Below.refl _ _)
+    obtain ⟨hn1, hn2, hn3, hn4⟩ := hs.names e he (Below.refl _ _)
     have hPe : P ≠ e.down := fun h => hPb (h ▸ Below.refl _ _)
     obtain ⟨st1, h1, h2, h3, h4, h5⟩ := sendNode_transfer dst.1 { neOf src e with parent := P } (wall dst.2) hr1 hr2 hr3
       (hfresh e.down (Below.refl _ _)) hn1 ⟨hP1, hP2, hP3, hPe⟩ hr4
@@ -157,7 +161,7 @@ theorem sendNodes_sent (wall : Int → Int) (src : St) (hs : SrcOk src) :
       intro b c hb hc hcu hU
       unfold kidStep
       rw [if_pos hb]
-      have := ih b.1 c c.up (liveEdges_mem src c hc) (hcu ▸ hn1) (hcu ▸ hn4) (hcu ▸ hn2)
+      have := ih b.1 c c.up (hs.sub hc hcu) (liveEdges_mem src c hc) (hcu ▸ hn1) (hcu ▸ hn4) (hcu ▸ hn2)
         (Below.not_up hLT (shape c) (liveK_mem src c hc)) hU
       exact this
     have hnotup : ∀ c, c ∈ liveEdges src → c.up = e.down → ¬ Below (liveK src) c.down e.down := by
@@ -329,7 +333,7 @@ theorem liveK_length (src : St) : (liveK src).length ≤ src.edges.length := by
 
 /-- **a subtree the upstream store does not know** (`toRemote` = sendNodesRemote with the budget in use): every node of the
     live subtree arrives with exactly the local rows -/
-theorem toRemote_sent (wall : Int → Int) (s : Pair) (hs : SrcOk s.a) (e : Edge) (P : Bytes) (he : e ∈ s.a.edges)
+theorem toRemote_sent (wall : Int → Int) (s : Pair) (e : Edge) (hs : SrcOk s.a e.down) (P : Bytes) (he : e ∈ s.a.edges)
     (hP1 : P ≠ []) (hP2 : P ≠ noneS) (hP3 : P ≠ rootS) (hPb : ¬ Below (liveK s.a) e.down P)
     (hfresh : ∀ m, Below (liveK s.a) e.down m → Fresh s.b m) :
     (toRemote wall s { neOf s.a e with parent := P }).a = s.a ∧
@@ -338,7 +342,7 @@ theorem toRemote_sent (wall : Int → Int) (s : Pair) (hs : SrcOk s.a) (e : Edge
     (∀ c ∈ liveEdges s.a, Below (liveK s.a) e.down c.up →
       ∃ k, eptsOf (toRemote wall s { neOf s.a e with parent := P }).b c.up c.down = sentE (eptsOf s.a c.up c.down) (wall k)) ∧
     (∀ y, ¬ Below (liveK s.a) e.down y → Same s.b (toRemote wall s { neOf s.a e with parent := P }).b y) := by
-  obtain ⟨_, hS⟩ := sendNodes_sent wall s.a hs (2 ^ s.a.edges.length + 1) (s.b, s.clk) e P he hP1 hP2 hP3 hPb hfresh
+  obtain ⟨_, hS⟩ := sendNodes_sent wall s.a hs.tree (2 ^ s.a.edges.length + 1) (s.b, s.clk) e P hs he hP1 hP2 hP3 hPb hfresh
   have hdepth : ∀ a y d, BelowD (liveK s.a) a d y → d + 1 < 2 ^ s.a.edges.length + 1 := by
     intro a y d h
     have h1 := belowD_depth _ (liveK s.a) rfl (liveK_tree s.a hs.tree) a y d h
@@ -405,10 +409,10 @@ theorem filter_unique {α β} [DecidableEq β] (f : α → β) (q : α → Bool)
       exact ih hp.2 e he' hq (fun x hx => hall x (List.mem_cons_of_mem _ hx))
 
 /-- `syncNode` for a local node (not the root device) that upstream has no edge into: the whole pass is `sendNodesRemote` -/
-theorem syncNode_missing (wall : Int → Int) (fuel : Nat) (s : Pair) (hs : SrcOk s.a) (e : Edge) (he : e ∈ s.a.edges)
+theorem syncNode_missing (wall : Int → Int) (fuel : Nat) (s : Pair) (e : Edge) (hs : SrcOk s.a e.down) (he : e ∈ s.a.edges)
     (hp1 : e.up ≠ rootS) (hp2 : e.up ≠ allS) (hfresh : Fresh s.b e.down) :
     syncNode wall (fuel + 1) s e.up e.down = toRemote wall s (neOf s.a e) := by
-  obtain ⟨_, _, hn3, _⟩ := hs.names e he
+  obtain ⟨_, _, hn3, _⟩ := hs.names e he (Below.refl _ _)
   have hA : s.a.edges.filter (fun x => x.up == e.up && x.down == e.down) = [e] := by
     have hpw : s.a.edges.Pairwise (fun a b => a.down ≠ b.down) := by
       have := hs.tree.single
